@@ -428,6 +428,8 @@ def run(chk):
     chk.guard(rule_r6, chk)
     from . import c16
     chk.guard(c16.rule_r3, chk, rid="C05-R8")
+    from .. import args as _args
+    chk.guard(_args.apply, chk, "C05-R90", {'incidences', 'simultaneous', 'steadiers'}, 1)
     chk.assumptions = [
         "that converged values satisfy the equations is the solver's numerics: NOT decided",
         "system matrices satisfy A xi_t + B xi_{t-1} + C = 0, F y + G xi + H = 0 (the sign convention of fords.systems.System)",
